@@ -5,6 +5,9 @@ EXTENDS Gate_MC
 GenInit == d \in Descriptors \cup Observed
 GenSpec == GenInit /\ [][Next]_vars
 GenOK == WellFormed(d)
+(* the invariants of Gate_MC on the claimed part of the space, so that one run can do both *)
+GenTypeOK == d.viol \notin UnclaimedNames => TypeOK
+GenWalkAgrees == d.viol \notin UnclaimedNames => WalkAgrees
 Emit == PrintT(<<"CASE", ToJson(d)>>)
 ASSUME PrintT(<<"VIOLNAMES", ToJson(ViolNames \cup UnclaimedNames)>>)
 =============================================================================
